@@ -146,23 +146,38 @@ class NinjaWriteVariable(Contract):
 
 
 class NinjaWriteBuild(Contract):
-    """`build` outputs `: rule` inputs [` | ` implicit] [` || ` order-only]"""
+    """`build` outputs `: rule` inputs [` | ` implicit] [` || ` order-only], then one indented binding per variable:
+    `description` in clean syntax (it is only shown), *every other* variable in shell syntax, whatever the order."""
     target = 'bfg9000/backends/ninja/syntax.py::NinjaFile._write_build'
     properties = ('C02', 'C03', 'C04')
+    VARS = {'no-variables': [], 'description-first': ['description', 'output', 'cflags'],
+            'description-last': ['cmd', 'description']}
+
+    def cases(self):
+        return list(self.VARS)
 
     def params(self, cx, case):
+        from pyvc.values import PDict
         buf0 = cx.ghost('buf0', z3.Const('buf0', T.Str))
+        vs = PDict()
+        for n in self.VARS[case]:
+            vs.d[nsyn.var(n)] = frags('value_of_' + n)
         build = Obj(nsyn.Build, {'outputs': frags('outputs'), 'rule': cx.str('rule'), 'inputs': frags('inputs'),
-                                 'implicit': frags('implicit'), 'order_only': frags('order_only'), 'variables': {}})
+                                 'implicit': frags('implicit'), 'order_only': frags('order_only'),
+                                 'variables': vs if self.VARS[case] else {}})
         return {'self': Obj(nsyn.NinjaFile, {}), 'out': ninja_writer(buf0), 'build': build}
 
     def ensures(self, a, r):
         S = nsyn.Syntax
         at = a.build.attrs
-        return {'build_statement': written(a) == z3.Concat(
-            T.lit('build '), each('ninja', S.output, at['outputs'].e), T.lit(': '), M.sym_str(at['rule']),
-            each('ninja', S.input, at['inputs'].e, ' '), each('ninja', S.input, at['implicit'].e, ' | '),
-            each('ninja', S.input, at['order_only'].e, ' || '), T.lit('\n'))}
+        parts = [T.lit('build '), each('ninja', S.output, at['outputs'].e), T.lit(': '), M.sym_str(at['rule']),
+                 each('ninja', S.input, at['inputs'].e, ' '), each('ninja', S.input, at['implicit'].e, ' | '),
+                 each('ninja', S.input, at['order_only'].e, ' || '), T.lit('\n')]
+        vs = at['variables']
+        for k, v in (vs.d.items() if hasattr(vs, 'd') else []):
+            sx = S.clean if k.name == 'description' else S.shell
+            parts += [T.lit('  ' + k.name + ' = '), each('ninja', sx, v.e), T.lit('\n')]
+        return {'build_statement': written(a) == z3.Concat(*parts)}
 
 
 class MakeWriteDefine(Contract):
@@ -185,31 +200,50 @@ class MakeWriteDefine(Contract):
 
 
 class MakeWriteFile(Contract):
-    """Makefile.write, the include statements at the end of the file: `[-]include ` + the file in TARGET syntax (make
-    reads the word like a target: blanks, `#`, `%`... need the target-side escapes), one statement per line.  The other
-    sections are empty in this contract (their statements are the contracts above)."""
+    """Makefile.write: (1) the global variable sections -- the built-in path variables in clean syntax (they are only
+    used inside other, quoted words), every other section in shell syntax; (2) the include statements at the end of the file: `[-]include ` + the file in TARGET syntax (make reads the
+    word like a target: blanks, `#`, `%`... need the target-side escapes), one statement per line.  Defines and rules
+    are empty in this contract (their statements are the contracts above)."""
     target = 'bfg9000/backends/make/syntax.py::Makefile.write'
-    properties = ('C04', 'C07')
+    properties = ('C01', 'C04', 'C07')
+
+    def cases(self):
+        return ['includes', 'variables']
+
+    def case_in_property(self, case, pid):
+        return case == {'C01': 'variables'}.get(pid, 'includes')
 
     def params(self, cx, case):
-        incs = PList([Obj(msyn.Include, {'name': frag('inc0'), 'optional': cx.bool('opt0')}),
-                      Obj(msyn.Include, {'name': frag('inc1'), 'optional': cx.bool('opt1')})])
+        incs, secs, tvars = PList([]), {s_: PList([]) for s_ in msyn.Section}, PList([])
+        if case == 'includes':
+            incs = PList([Obj(msyn.Include, {'name': frag('inc0'), 'optional': cx.bool('opt0')}),
+                          Obj(msyn.Include, {'name': frag('inc1'), 'optional': cx.bool('opt1')})])
+        else:
+            for sct in msyn.Section:
+                secs[sct] = PList([(Obj(msyn.Variable, {'name': cx.str('name_' + sct.name)}), frags('value_' + sct.name))])
         me = Obj(msyn.Makefile, {'_bfgfile': cx.str('bfgfile'), '_gnu': True, 'path_vars': None,
-                                 '_global_variables': {s: PList([]) for s in msyn.Section},
-                                 '_target_variables': PList([]), '_defines': PList([]), '_rules': PList([]),
-                                 '_includes': incs})
+                                 '_global_variables': secs, '_target_variables': tvars, '_defines': PList([]),
+                                 '_rules': PList([]), '_includes': incs})
         return {'self': me, 'out': PStream('')}
 
     def ensures(self, a, r):
         text = M.sym_str(a.out.buf)
         tail = []
-        for inc in a.self.attrs['_includes'].items:
-            opt = T.zbool(M.lift(inc.attrs['optional']))
-            tail += [z3.If(opt, T.lit('-include '), T.lit('include ')),
-                     one('make', msyn.Syntax.target, inc.attrs['name'].e), T.lit('\n')]
+        if a.self.attrs['_includes'].items:
+            for inc in a.self.attrs['_includes'].items:
+                opt = T.zbool(M.lift(inc.attrs['optional']))
+                tail += [z3.If(opt, T.lit('-include '), T.lit('include ')),
+                         one('make', msyn.Syntax.target, inc.attrs['name'].e), T.lit('\n')]
+            name = 'include_statements_in_target_syntax'
+        else:
+            for sct in msyn.Section:
+                (vn, value), = a.self.attrs['_global_variables'][sct].items
+                sx = msyn.Syntax.clean if sct == msyn.Section.path else msyn.Syntax.shell
+                tail += [M.sym_str(vn.attrs['name']), T.lit(' := '), each('make', sx, value.e), T.lit('\n'), T.lit('\n')]
+            name = 'variable_sections_in_their_syntax'
         tail = z3.Concat(*tail)
         n, k = z3.Length(text), z3.Length(tail)
-        return {'include_statements_in_target_syntax': z3.And(n >= k, z3.Extract(text, n - k, k) == tail)}
+        return {name: z3.And(n >= k, z3.Extract(text, n - k, k) == tail)}
 
 
 class NinjaWriteRule(Contract):
@@ -258,9 +292,36 @@ class NinjaWriteRule(Contract):
         return {'rule_block': written(a) == z3.Concat(*parts)}
 
 
+class NinjaWriteFile(Contract):
+    """NinjaFile.write, the top-level variable sections: the built-in path variables are written in clean syntax (they
+    are only used inside other, quoted words); the variables of every other section (tool commands, flags, other)
+    in shell syntax.  Rules, builds and defaults are empty here (their statements are the contracts above)."""
+    target = 'bfg9000/backends/ninja/syntax.py::NinjaFile.write'
+    properties = ('C02',)
+
+    def params(self, cx, case):
+        secs = {}
+        for sct in nsyn.Section:
+            secs[sct] = PList([(Obj(nsyn.Variable, {'name': cx.str('name_' + sct.name)}), frags('value_' + sct.name))])
+        me = Obj(nsyn.NinjaFile, {'_bfgfile': cx.str('bfgfile'), '_min_version': None, 'path_vars': None,
+                                  '_variables': secs, '_rules': {}, '_builds': PList([]), '_defaults': PList([])})
+        return {'self': me, 'out': PStream('')}
+
+    def ensures(self, a, r):
+        text = M.sym_str(a.out.buf)
+        tail = []
+        for sct in nsyn.Section:
+            (name, value), = a.self.attrs['_variables'][sct].items
+            sx = nsyn.Syntax.clean if sct == nsyn.Section.path else nsyn.Syntax.shell
+            tail += [M.sym_str(name.attrs['name']), T.lit(' = '), each('ninja', sx, value.e), T.lit('\n'), T.lit('\n')]
+        tail = z3.Concat(*tail)
+        n, k = z3.Length(text), z3.Length(tail)
+        return {'variable_sections_in_their_syntax': z3.And(n >= k, z3.Extract(text, n - k, k) == tail)}
+
+
 def make_registry():
     return [MakeWriteVariable(), MakeWriteRule(), MakeWriteDefine(), MakeWriteFile()]
 
 
 def ninja_registry():
-    return [NinjaWriteVariable(), NinjaWriteBuild(), NinjaWriteRule()]
+    return [NinjaWriteVariable(), NinjaWriteBuild(), NinjaWriteRule(), NinjaWriteFile()]
